@@ -8,7 +8,7 @@ MANIFEST = (
     "runtime monitor: node::force() after cell::apply_internal_forces on fresh cells, one force term enabled at a time / all / mixed; "
     "oracles: zero net force and torque, own long-double p*dV/dx and -sum tau dA/dx (validated against finite differences in the run), "
     "superposition of the terms, rigid-motion equivariance; part of the workload under ASan/UBSan",
-    "Held on every generated (mesh, configuration) of the run: 300 (quick) / 20 000 (thorough) closed meshes from 10 families "
+    "Held on every generated (mesh, configuration) of the run: 300 (quick) / 100 000 (thorough) closed meshes from 10 families "
     "(8..1280 faces, scales 1e-6..1e1, up to 30 sizes from the origin, permuted / partly flipped input windings, flat, concave and "
     "beyond-135-degree hinges, faces outside the 10..170 degree window), three cell classes, 2-4 face types with mixed zero / non-zero "
     "tensions and bending moduli, x 6 parameter configurations, each re-run on a rigidly moved copy. Exploration is the right level: "
